@@ -17,6 +17,8 @@
 #include "QXmppVCardIq.h"
 #include "QXmppDiscoveryIq.h"
 #include "QXmppGeolocItem.h"
+#include "QXmppPubSubEvent.h"
+#include "QXmppElement.h"
 #include "QXmppRosterIq.h"
 #include "QXmppMamIq.h"
 #include "QXmppOutOfBandUrl.h"
@@ -1294,6 +1296,41 @@ int main(int argc, char **argv)
             char buf[128]; snprintf(buf, sizeof buf, "lat=%.17g lon=%.17g accuracy=%.17g", lat, lon, acc);
             roundtrip(lat, lon, acc, buf);
         }
+    }
+    // (0d) RUNTIME oracle (no Lean model: QXmppMessage subclasses have no schema): a PubSub event of every type with every optional part
+    //      set, followed by stanza-level extensions (XEP-0033 addresses, an unknown element), serializes to well-formed XML that the class
+    //      accepts again and writes identically (the event's own elements must be closed before the message continues)
+    {
+        using Ev = QXmppPubSubEvent<QXmppPubSubBaseItem>;
+        for (int type = 0; type <= int(Ev::Subscription); type++)
+            for (int variant = 0; variant < 8; variant++) {
+                Ev ev; ev.setEventType(Ev::EventType(type)); ev.setNode(QStringLiteral("princely_musings")); ev.setId(QStringLiteral("m1"));
+                const bool parts = variant & 1;   // the optional parts that belong to the event type
+                if (type == int(Ev::Delete) && parts) ev.setRedirectUri(QStringLiteral("xmpp:hamlet@denmark.lit?;node=blog"));
+                if (type == int(Ev::Retract)) ev.setRetractIds(parts ? QStringList { QStringLiteral("r1"), QStringLiteral("r<2>") } : QStringList { QStringLiteral("r1") });
+                if (type == int(Ev::Items) && parts) { QXmppPubSubBaseItem it; it.setId(QStringLiteral("i1")); ev.setItems({ it }); }
+                if (type == int(Ev::Subscription)) {
+                    QXmppPubSubSubscription sub; sub.setJid(QStringLiteral("a@b")); if (parts) { sub.setNode(QStringLiteral("n")); sub.setState(QXmppPubSubSubscription::Subscribed); }
+                    ev.setSubscription(sub);
+                }
+                if (type == int(Ev::Configuration) && parts) {
+                    QXmppDataForm f; f.setType(QXmppDataForm::Result); QXmppDataForm::Field fd(QXmppDataForm::Field::TextSingleField); fd.setKey(QStringLiteral("pubsub#title")); fd.setValue(QStringLiteral("t")); f.setFields({ fd });
+                    ev.setConfigurationForm(f);
+                }
+                if (variant & 2) ev.setBody(QStringLiteral("b <&> ]]>"));
+                if (variant & 4) {
+                    QXmppElement headers; headers.setTagName(QStringLiteral("headers")); headers.setAttribute(QStringLiteral("xmlns"), QStringLiteral("http://jabber.org/protocol/shim"));
+                    ev.setExtensions(QXmppElementList() << headers);
+                    QXmppExtendedAddress a; a.setJid(QStringLiteral("c@d")); a.setType(QStringLiteral("to")); ev.setExtendedAddresses({ a });
+                }
+                QByteArray out = ser(ev);
+                std::string what = "event type " + std::to_string(type) + " variant " + std::to_string(variant) + " -> " + out.toStdString();
+                QDomDocument doc;
+                if (!doc.setContent(out, true)) { fail("C02:output-not-wellformed:QXmppPubSubEvent:own-object", what); continue; }
+                Ev back; back.parse(doc.documentElement());
+                if (ser(back) != out) fail("C01:own-form-roundtrip:QXmppPubSubEvent:own-object", what); else oraclePass()++;
+                stat("pubsub_event_objects");
+            }
     }
     const int mutationsPerDoc = thorough ? 6 : 3;
     size_t g = 0;
